@@ -32,6 +32,7 @@ CFG_FIELDS = [
     "sentinel_columns_none", "includes_upsert_behaviors", "embed_values_counter",
     "has_upsert_bound_parameters", "page_size", "max_params", "total_params", "params_per_batch",
     "is_returning", "imv_sbo", "num_sentinel", "implicit", "has_keys", "named", "num_ins", "numeric",
+    "values_binds",
 ]
 # mask     : per position of positiontup (positional) / per key (named): 1 = rendered inside VALUES
 # sent_pos : positions of the sentinel values inside a parameter tuple ([] = none)
@@ -134,6 +135,8 @@ _BOOL_ATOMS = {
     "imv_batch.is_downgraded": "is_downgraded",
 }
 _INT_ATOMS = {
+    "len(imv.insert_crud_params)": "num_elements",
+    "sum((len(elem[3]) for elem in imv.insert_crud_params))": "num_values_binds",
     "imv.num_sentinel_columns": "num_sentinel_columns",
     "len(rows_by_sentinel)": "dict_len",
     "len(imv_batch.batch)": "batch_len",
@@ -185,8 +188,8 @@ def _zexpr(node, ints=(), subst=None):
         if type(node.op) not in ops:
             raise _T2Error("operator " + ast.unparse(node))
         return "(%s %s %s)" % (_zexpr(node.left, ints, subst), ops[type(node.op)], _zexpr(node.right, ints, subst))
-    if isinstance(node, ast.Call) and isinstance(node.func, ast.Name) and node.func.id == "min" and len(node.args) == 2:
-        return "(Z.min %s %s)" % (_zexpr(node.args[0], ints, subst), _zexpr(node.args[1], ints, subst))
+    if isinstance(node, ast.Call) and isinstance(node.func, ast.Name) and node.func.id in ("min", "max") and len(node.args) == 2:
+        return "(Z.%s %s %s)" % (node.func.id, _zexpr(node.args[0], ints, subst), _zexpr(node.args[1], ints, subst))
     if isinstance(node, ast.IfExp):
         return "(if truthy %s then %s else %s)" % (
             _zexpr(node.test, ints, subst), _zexpr(node.body, ints, subst), _zexpr(node.orelse, ints, subst))
@@ -267,6 +270,7 @@ def _gen_source(repo):
         raise _T2Error("clamp block changed: " + str(names))
     ints = ("batch_size", "max_params", "total_num_of_params", "num_params_per_batch", "lenparams",
             "expand_pos_lower_index", "num_ins_params", "current_batch_size", "start")
+    per_batch = _zexpr(clamp_if.body[1].value, ints)
     outside = _zexpr(clamp_if.body[2].value, ints)
     clamp = _zexpr(clamp_if.body[3].value, ints, {"num_params_outside_of_batch": outside})
     total = _zexpr(_assign_of(comp, "total_batches"), ints)
@@ -354,6 +358,11 @@ Definition gen_decide_mode (sbo : bool) (f : flags) : bool * bool :=
 Lemma gen_decide_mode_ok : forall sbo f, gen_decide_mode sbo f = decide_mode sbo f.
 Proof. intros sbo [a b c d e g h i]; destruct sbo, a, b, c, d, e, g, h, i; reflexivity. Qed.
 
+Definition gen_params_per_batch (num_elements num_values_binds : Z) : Z :=
+  %(per_batch)s.
+Lemma gen_params_per_batch_ok : forall a b, gen_params_per_batch a b = params_per_batch_expr a b.
+Proof. reflexivity. Qed.
+
 Definition gen_clamp_expr (batch_size max_params total_num_of_params num_params_per_batch : Z) : Z :=
   %(clamp)s.
 Lemma gen_clamp_expr_ok : forall a b c d, gen_clamp_expr a b c d = clamp_expr a b c d.
@@ -393,7 +402,7 @@ Proof. intros a b. unfold gen_rowcount_differs, rowcount_differs. f_equal.
   destruct (Nat.eqb a b) eqn:E.
   - apply Nat.eqb_eq in E. subst. apply Z.eqb_refl.
   - apply Z.eqb_neq. intros H. apply Nat2Z.inj in H. subst. rewrite Nat.eqb_refl in E. discriminate. Qed.
-""" % dict(decide=decide, clamp=clamp, total=total, numeric_guard=numeric_guard, start=start, end=end,
+""" % dict(per_batch=per_batch, decide=decide, clamp=clamp, total=total, numeric_guard=numeric_guard, start=start, end=end,
            merge_guard=merge_guard, composite=composite, rowcount=rowcount)
 
 
@@ -495,7 +504,7 @@ def make_case(rng, style, dopt=0, pstyle=0, sbo=1, returning=1, upsert=0, extra=
         elif sname == "clientpk":
             nsc, has_keys, sent_names = 1, 1, ["id"]
         elif sname == "omitpk":
-            nsc = 1
+            nsc = 0  # since 56a4cbe: no usable sentinel -> sentinel_columns None -> row-at-a-time
     is_default_expr = int(bool(defonly and not defmeta))
     if defonly:
         per_batch = 1 if defmeta else 0
@@ -507,7 +516,7 @@ def make_case(rng, style, dopt=0, pstyle=0, sbo=1, returning=1, upsert=0, extra=
     cfg = [
         is_default_expr, int(defmeta), int(mv), int(returning), int(nsc == 0), int(upsert > 0), embed,
         int(upsert >= 2), page, maxp, total, per_batch, int(returning), int(bool(sbo and returning)),
-        nsc, implicit, has_keys, named, 0 if named else nvalues_binds, numeric,
+        nsc, implicit, has_keys, named, 0 if named else nvalues_binds, numeric, nvalues_binds,
     ]
     mask = [1 if nm in vnames else 0 for nm in order]
     sent_pos = [pos[nm] for nm in sent_names]
@@ -556,7 +565,7 @@ def make_case(rng, style, dopt=0, pstyle=0, sbo=1, returning=1, upsert=0, extra=
     if dfirst:  # RETURNING d, <key columns> instead of <key columns>, d
         ret = [ret[-1]] + ret[:-1]
     if nsc:
-        if implicit or sname == "omitpk":
+        if implicit:
             ret = ret + [[0]]
         else:
             ret = ret + [[1, pos[nm]] for nm in sent_names]
@@ -569,11 +578,8 @@ def make_case(rng, style, dopt=0, pstyle=0, sbo=1, returning=1, upsert=0, extra=
     else:
         keys = [rng.randint(0, 3 * n + 1) for _ in range(n)]
     setup = [style, dopt, pstyle, upsert, extra, wo_ret, int(defonly), int(dfirst), int(retdef), int(conflict)]
-    # multibind over the (enforced) limit: the database rejects the statement - the concrete database
-    # of IMVRun.v has no parameter limit, so these cases are oracle-only
-    over = bool(sname == "multibind" and maxp and n >= 2 and len(xnames) + min(page, maxp - (total - per_batch), n) * 3 > maxp)
     return {"in": [cfg, mask, sent_pos, ret, tuples, keys, list(fault or []), setup, [1] if conflict else []], "kind": kind,
-            "model": n >= 2 and not over}
+            "model": n >= 2}
 
 
 def _cfg(c):
@@ -689,6 +695,12 @@ def gen_cases(rng, tier):
             ks.append(cur)
         cases.append(make_orm_case(rng, ks, sbo=rng.choice([1, 1, 0]), page=rng.choice([1, 2, 3, 1000]),
                                    dopt=rng.randrange(2), pstyle=rng.randrange(4), ent=rng.randrange(2)))
+    # 4d. statements whose rewriting depends on the text of the VALUES clause (oracle only)
+    for variant in range(3):
+        for ps in range(4):
+            for page in (2, 1000):
+                cases.append({"in": [101, variant, ps, page, rng.sample(range(100, 999), 5)], "kind": "statement-text",
+                              "model": False})
     # 5. random larger ones
     nrand = 4000 if tier == "thorough" else 80
     for _ in range(nrand):
@@ -704,6 +716,8 @@ def gen_cases(rng, tier):
 
 
 def nontrivial(c):
+    if c["in"][0] == 101:
+        return False
     if c["in"][0] == 100:
         return len(set(c["in"][2])) > 1
     cfg = _cfg(c)
@@ -863,6 +877,8 @@ def impl(c):
         impl_setup()
     if c["in"][0] == 100:
         return _impl_orm(c)
+    if c["in"][0] == 101:
+        return _impl_text(c)
     cfg, mask, sent_pos, rowspec, tuples, keys, fault, setup, post = c["in"]
     C = dict(zip(CFG_FIELDS, cfg))
     style, dopt, pstyle, upsert, extra, wo_ret, defonly, dfirst, retdef, conflict = setup
@@ -1018,6 +1034,7 @@ def impl(c):
                     int(not compiled.positional),
                     imv.num_positional_params_counted if compiled.positional else 0,
                     int(bool(compiled._numeric_binds)),
+                    sum(len(e[3]) for e in imv.insert_crud_params),
                 ]
                 for b in orig_deliver(connection, cursor, statement, parameters, gsi, context):
                     state["cur"] = b
@@ -1085,6 +1102,61 @@ def impl(c):
         _default.DefaultExecutionContext.fetchall_for_returning = orig_fetch
         eng.dispose()
     return [echo[0], echo[1], batches, status, rows_out, inserted, table]
+
+
+def _impl_text(c):
+    """statements whose rewriting depends on the TEXT of the VALUES clause (oracle only, not modelled):
+    in = [101, variant, pstyle, page, ds]   obs = [status, sorted rows]
+    0: a literal % inside VALUES   INSERT INTO t (d) VALUES (:a % 1000)
+    1: the text of the VALUES group occurs a second time   VALUES (?, ?) RETURNING id, coalesce(?, ?)
+    2: one bind name is a prefix of another inside one VALUES element   VALUES (coalesce(:p1, :p10))"""
+    import sqlalchemy as sa
+
+    if not _ENV.get("ready"):
+        impl_setup()
+    _, variant, pstyle, page, ds = c["in"]
+    ps = PSTYLES[pstyle]
+    url = {"qmark": "sqlite://", "named": "sqlite://", "numeric": "sqlite+pysqlite_numeric://",
+           "numeric_dollar": "sqlite+pysqlite_dollar://"}[ps]
+    eng = sa.create_engine(url, insertmanyvalues_page_size=page, **({"paramstyle": "named"} if ps == "named" else {}))
+    md = sa.MetaData()
+    I = sa.Integer
+    if variant == 1:
+        t = sa.Table("t", md, sa.Column("id", I, primary_key=True, autoincrement=False), sa.Column("d", I))
+        stmt = t.insert().returning(t.c.id, sa.func.coalesce(sa.bindparam("x", None, type_=I), sa.bindparam("y", 5, type_=I)))
+        params = [{"id": i + 1, "d": d} for i, d in enumerate(ds)]
+    else:
+        t = sa.Table("t", md, sa.Column("id", I, primary_key=True), sa.Column("d", I))
+        if variant == 0:
+            stmt = t.insert().values(d=sa.bindparam("a") % 1000).returning(t.c.id, t.c.d)
+            params = [{"a": d} for d in ds]
+        else:
+            stmt = t.insert().values(d=sa.func.coalesce(sa.bindparam("p1"), sa.bindparam("p10"))).returning(t.c.id, t.c.d)
+            params = [{"p1": None, "p10": d} for d in ds]
+    status, rows = 0, []
+    try:
+        with eng.connect() as conn:
+            md.create_all(conn)
+            try:
+                rows = sorted([_canon(v) for v in r] for r in conn.execute(stmt, params).all())
+            except Exception:
+                status = 9
+            conn.rollback()
+    finally:
+        eng.dispose()
+    return [status, rows]
+
+
+def _oracle_text(c, obs):
+    _, variant, pstyle, page, ds = c["in"]
+    status, rows = obs
+    what = ["a literal % inside VALUES", "VALUES text occurring twice", "bind name that is a prefix of another"][variant]
+    if status != 0:
+        return "statement text (%s, %s): exception instead of %d returned rows" % (what, PSTYLES[pstyle], len(ds))
+    want = sorted([i + 1, 5 if variant == 1 else d % 1000] for i, d in enumerate(ds))
+    if rows != want:
+        return "statement text (%s, %s): returned rows %s, one per parameter set is %s" % (what, PSTYLES[pstyle], rows, want)
+    return None
 
 
 def _orm_groups(ks):
@@ -1214,6 +1286,8 @@ def _expected_rows(c):
 def oracle(c, obs):
     if c["in"][0] == 100:
         return _oracle_orm(c, obs)
+    if c["in"][0] == 101:
+        return _oracle_text(c, obs)
     cfg = _cfg(c)
     C = c["in"]
     tuples, fault, sent_pos = C[4], C[6], C[2]
@@ -1259,6 +1333,15 @@ def oracle(c, obs):
 def match_finding(c, what):
     if c["in"][0] == 100:
         return None
+    if c["in"][0] == 101:
+        variant, pstyle = c["in"][1], PSTYLES[c["in"][2]]
+        if variant == 0 and pstyle.startswith("numeric"):
+            return "C12-numeric-percent-in-values"
+        if variant == 1 and pstyle == "qmark":
+            return "C12-values-text-replaced-elsewhere"
+        if variant == 2 and pstyle == "named":
+            return "C12-named-placeholder-prefix"
+        return None
     C = c["in"]
     cfg = _cfg(c)
     setup = C[7]
@@ -1278,9 +1361,10 @@ LEVEL_TEXT = (
     "_deliver_insertmanyvalues_batches generators and their consumer loop: for every row count, every "
     "page size >= 1, every mode / paramstyle / sentinel configuration and every order in which the "
     "database returns the rows of each statement, every parameter set is sent exactly once and the n-th "
-    "returned row is the row of the n-th parameter set (guarded by: parameters outside VALUES do not "
-    "differ per row; sentinel columns have client-side values or implicit support - both exclusions are "
-    "proved to be real defects and replayed as known findings); the ORM bulk insert splice of per-key-set "
+    "returned row is the row of the n-th parameter set (guarded by: row-at-a-time mode, or parameters "
+    "outside VALUES do not differ per row - the exclusion is proved to be a real defect and replayed as a "
+    "known finding; sentinel columns have client-side values or implicit support - what the compiler "
+    "guarantees since 56a4cbe); the ORM bulk insert splice of per-key-set "
     "executemany results is in parameter order for every sequence of key sets; mode decision safety, batch partition, "
     "total_batches, max_params clamp, positional / numeric / named parameter expansion, the two merge "
     "guards. The tie to the code: pinned normalised source + decision/arithmetic expressions re-extracted "
